@@ -39,7 +39,7 @@ Clause(r) ==
   ELSE IF ~\E e \in Errs(r) : AtInjection(r, e) THEN "not_localised"
   ELSE IF r.local /\ \E e \in Errs(r) : ~AtInjection(r, e) THEN "other_errors_reported"
   ELSE IF r.local /\ \E j \in 1..Len(r.sets) : j # r.faultset /\ r.sets[j] # "A" THEN "other_set_not_accepted"
-  ELSE IF r.local /\ r.faultset <= Len(r.sets) /\ r.sets[r.faultset] = "A" THEN "faulty_set_accepted"
+  ELSE IF r.local /\ r.faultset >= 1 /\ r.faultset <= Len(r.sets) /\ r.sets[r.faultset] = "A" THEN "faulty_set_accepted"      \* faultset 0: the fault lies outside any set
   ELSE ""
 Init == i = 1 /\ rej = {}
 Step == /\ i <= Len(Recs)
